@@ -392,6 +392,92 @@ pub fn ipa_unbound_hiding_forgery(rec: &mut Rec) {
     }
 }
 
+
+/// Constructive forgery against a Hyrax verifier that evaluates equation (13) as ONE merged multi-scalar product over
+/// `com_key || h || row_coms || com_d` with the scalars `z || z_d || -c*l || -1` and does not pin the length of the
+/// prover's vector `z`: a `z` of `2*dim + 2` entries covers every base with prover-chosen scalars and pushes the
+/// verifier's own scalars past the end of the (truncating) product, so the commitment plays no part.  The forger needs no
+/// knowledge of the polynomial: `com_eval` commits to the false value, `com_d = com_key[0]`, `z = [z0,0,..,0,-z0]` with
+/// `z0 = (c*v' + b)/r_0`, `z_b = c*r_eval + r_b`.  A verifier that checks `|z| = dim` (or commits to `z` through a
+/// length-checked Pedersen commitment) refuses it.  Variants: the cancelling entry at every position a merged layout
+/// could put `com_d` (after the row commitments, before them, directly after `h`).
+pub fn hyrax_stretched_z_forgery(rec: &mut Rec) {
+    use crate::refm::{naive_mul, ser_unc, tensor_msb};
+    use ark_crypto_primitives::sponge::CryptographicSponge;
+    use ark_ec::{AffineRepr, CurveGroup};
+    use ark_ff::{Field, Zero};
+    use ark_poly_commit::hyrax::HyraxProof;
+    type S = SHyr;
+    for nv in [2usize, 4] {
+        for layout in ["key|h|rows|d", "key|h|d|rows", "key|rows|h|d", "key|d"] {
+            for pn in ["generic", "second"] {
+                let id = format!("HYR/forge/stretched-z/nv={}/layout={}/z={}", nv, layout, pn);
+                if !rec.take(&id) {
+                    continue;
+                }
+                rec.dim("scheme", "HYR");
+                let cfg = KeyCfg::ml(nv);
+                let keys = match build_keys::<S>(&cfg, rec.seed) {
+                    Ok(k) => k,
+                    Err(_) => continue,
+                };
+                let p = <S as Sch>::shapes(&cfg, rec.seed).pop().unwrap().1;
+                let c = match commit_set::<S>(&keys, vec![lp::<S>("p", p.clone(), None, None)], rec.seed, 0) {
+                    Ok(c) => c,
+                    Err(_) => continue,
+                };
+                let pts = <S as Sch>::points(&cfg, rec.seed);
+                let point = if pn == "generic" { pts[0].1.clone() } else { pts[pts.len() - 1].1.clone() };
+                let truth = p.evaluate(&point);
+                let fv = truth + FrJ::from(7u64);
+                let dim = 1usize << (nv / 2);
+                let vk = &keys.vk;
+                let rr = crate::alpha::rho_stream::<FrJ>(rec.seed, 91, 4);
+                let (r_eval, b, r_b) = (rr[0], rr[1], rr[2]);
+                let com_eval = (naive_mul(&vk.com_key[0], &fv) + naive_mul(&vk.h, &r_eval)).into_affine();
+                let com_d = vk.com_key[0];
+                let com_b = (naive_mul(&vk.com_key[0], &b) + naive_mul(&vk.h, &r_b)).into_affine();
+                // the verifier's challenge
+                let mut sp = sponge_pre::<FrJ>(0);
+                let mut bytes = Vec::new();
+                ser_unc(vk, &mut bytes);
+                sp.absorb(&bytes);
+                let mut bytes = Vec::new();
+                ser_unc(&c.comms[0].commitment().row_coms, &mut bytes);
+                sp.absorb(&bytes);
+                sp.absorb(&point.to_vec());
+                for g in [&com_eval, &com_d, &com_b] {
+                    let mut bytes = Vec::new();
+                    ser_unc(g, &mut bytes);
+                    sp.absorb(&bytes);
+                }
+                let ch: FrJ = sp.squeeze_field_elements(1)[0];
+                let rev: Vec<FrJ> = point.iter().rev().cloned().collect();
+                let r = tensor_msb(&rev[..nv / 2]);
+                if r[0].is_zero() {
+                    continue;
+                }
+                let z0 = (ch * fv + b) * r[0].inverse().unwrap();
+                let (len, pos) = match layout {
+                    "key|h|rows|d" => (2 * dim + 2, 2 * dim + 1),
+                    "key|h|d|rows" => (2 * dim + 2, dim + 1),
+                    "key|rows|h|d" => (2 * dim + 2, 2 * dim + 1),
+                    _ => (dim + 1, dim),
+                };
+                let mut z = vec![FrJ::zero(); len];
+                z[0] = z0;
+                z[pos] = -z0;
+                let forged = HyraxProof::<GJ> { com_eval, com_d, com_b, z, z_d: FrJ::zero(), z_b: ch * r_eval + r_b, r_eval };
+                rec.op(2);
+                let comms: Vec<&LCm<S>> = c.comms.iter().collect();
+                let pf: Pf<S> = vec![forged];
+                let d = check_single::<S>(&keys, &comms, &point, &[fv], &pf, 0, rec.seed, 0);
+                expect_reject(rec, &d, "HYR", "check", "forged:stretched-z-covers-the-verifier-terms", &id, format!("z of {} entries for dim {}, claim value+7: {}", len, dim, d.short()));
+            }
+        }
+    }
+}
+
 /// Constructive forgery against a pairing batch verifier that weights two proofs equally: a false value
 /// at the first point together with opposite shifts `W_1 + aG`, `W_2 - aG`, `a = xi_1 * delta / (z_1 - z_2)`
 /// (`xi_1` the public opening challenge of the first group).  With independent verifier randomizers it
@@ -568,6 +654,7 @@ pub fn run(rec: &mut Rec) {
     });
     ipa_padded_forgery(rec);
     ipa_unbound_hiding_forgery(rec);
+    hyrax_stretched_z_forgery(rec);
     lig_vanishing_forgery(rec);
     equal_weight_forgery::<SMar>(rec, &|vk| vk.vk.g, &|p, w| ark_poly_commit::kzg10::Proof { w, random_v: p.random_v }, &|p| p.w);
     equal_weight_forgery::<SSon>(rec, &|vk| vk.g, &|p, w| ark_poly_commit::kzg10::Proof { w, random_v: p.random_v }, &|p| p.w);
